@@ -8,10 +8,23 @@
     absolute address A" where A is the (last) [#[address(A)]]; without an address, with an
     unresolvable parameter or return type it is rejected.  The meaning of that body shape
     (one call to A, receiver pointer first, arguments in order, callee's result returned) is
-    [RustExec.exec_address_call] (spec side). *)
+    [RustExec.exec_address_call] (spec side).
+    On the emitted text (EmitFn*.v): [C05_wrapper_shape] -- every function item the back end prints
+    for a function record, read back from its tokens, has the record's name, visibility, `unsafe`,
+    documentation, parameters (receiver as `&self`/`&mut self`), return type and a body of the
+    template its [sf_body] selects; [C05_wrapper_address]: for an address-bound function the body
+    transmutes the literal A (exactly the record's address) to an `unsafe extern "<cc>" fn` pointer
+    with the record's parameter/return types and calls it with the receiver cast first and the
+    arguments in order; [C05_emitted_impl_function] / [C05_emitted_wrappers]: in every accepted
+    build (collision free, schedule keeps the work list), each function declared in an impl block
+    (name not starting with `_`) has, in the inherent impl of its type in the module's file, a
+    wrapper with the declared name and visibility whose body calls the declared address
+    ([declared_address]) with the convention [cc_spec] -- the end-to-end statement of C05. *)
 From Coq Require Import List NArith ZArith Bool String.
 From PyxisModel Require Import Base Grammar SemTypes Registry Sem FunctionLemmas WholeBuild Examples.
 Import ListNotations.
+
+From PyxisModel Require EmitReaders EmitFnReaders EmitFnShape EmitFnFinal.
 
 Theorem C05_main : forall R scope f sf,
   function_build R scope false f = Ok sf ->
@@ -85,3 +98,119 @@ Example C05_whole_build_example :
     alookup ["m"]%string (st_modules st0) = Some module0 /\
     alookup ["m"; "Base"]%string (m_impls module0) = Some blk /\ List.length (gb_fns blk) = 1%nat.
 Proof. vm_compute. do 9 eexists. repeat split; reflexivity. Qed.
+
+Theorem C05_wrapper_shape :
+  forall (f : sfunction) (e : Sexp.sexp),
+    Emit.build_function f = Ok e -> EmitFnShape.wrapper_shape f e.
+Proof. exact EmitFnShape.build_function_shape. Qed.
+Print Assumptions C05_wrapper_shape.
+
+Theorem C05_wrapper_address :
+  forall (f : sfunction) (e : Sexp.sexp) (a : N),
+    Emit.build_function f = Ok e ->
+    sf_body f = BAddress a ->
+    exists (ty : EmitFnReaders.efnptr) (args : list EmitFnReaders.ecallarg),
+      EmitFnReaders.fn_wrapper_body e = Some (EmitFnReaders.EBAddress ty a args) /\
+      EmitFnReaders.fp_abi ty = cc_to_string (sf_cc f) /\
+      cc_of_string (EmitFnReaders.fp_abi ty) = Some (sf_cc f) /\
+      EmitFnReaders.fp_args ty = map EmitFnReaders.lam_of_arg (sf_args f) /\
+      EmitFnReaders.fp_ret ty = option_map Emit.type_tokens (sf_ret f) /\
+      args = map EmitFnReaders.callarg_of_arg (sf_args f).
+Proof. exact EmitFnShape.build_function_address. Qed.
+Print Assumptions C05_wrapper_address.
+
+Theorem C05_emitted_impl_function :
+  forall (order : schedule) (ptr : N) (mods : list (path * gmodule)) (st0 st : sstate)
+      (files : list (string * Sexp.sexp)) (p : path) (it0 : item) (gd : gitemdef) 
+      (td0 : gtypedef) (parent : path) (module0 : smodule) (blk : gfnblock) 
+      (gf : gfunction),
+    input_state ptr mods = Ok st0 ->
+    NoDup (map fst mods) ->
+    collision_free (st_reg st0) ->
+    EmitFinal.keeps_work order ->
+    pyxis_resolve order ptr mods = BOk st ->
+    Emit.write_all st = Ok files ->
+    reg_get (st_reg st0) p = Some it0 ->
+    it_state it0 = Unresolved gd ->
+    gi_inner gd = GIType td0 ->
+    path_parent p = Some parent ->
+    parent <> [] ->
+    alookup parent (st_modules st0) = Some module0 ->
+    alookup p (m_impls module0) = Some blk ->
+    In gf (gb_fns blk) ->
+    starts_with "_" (gf_name gf) = false ->
+    exists
+      (name : string) (f : Sexp.sexp) (items : list Sexp.sexp) (s im : Sexp.sexp) 
+    (fns : list Sexp.sexp) (e : Sexp.sexp) (sf : sfunction) (ty : EmitFnReaders.efnptr) 
+    (a : Z) (n : N) (c : cc),
+      path_last p = Some name /\
+      In (Emit.out_path parent, f) files /\
+      EmitReaders.file_items f = Some items /\
+      EmitReaders.find_struct name items = Some s /\
+      In im items /\
+      EmitFnReaders.inherent_impl im = Some (name, fns) /\
+      In e fns /\
+      EmitFnShape.wrapper_shape sf e /\
+      EmitFnReaders.fn_name e = Some (gf_name gf) /\
+      EmitFnReaders.fn_vis e = Some (gf_vis gf) /\
+      EmitFnReaders.fn_unsafe e = Some true /\
+      Datatypes.length (sf_args sf) = Datatypes.length (gf_args gf) /\
+      EmitFnReaders.fn_params e = Some (map EmitFnReaders.param_of_arg (sf_args sf)) /\
+      EmitFnReaders.fn_wrapper_body e =
+      Some (EmitFnReaders.EBAddress ty n (map EmitFnReaders.callarg_of_arg (sf_args sf))) /\
+      declared_address (gf_attrs gf) = Some a /\
+      z_to_usize a = Some n /\
+      cc_spec gf = Some c /\
+      EmitFnReaders.fp_abi ty = cc_to_string c /\
+      EmitFnReaders.fp_args ty = map EmitFnReaders.lam_of_arg (sf_args sf) /\
+      EmitFnReaders.fp_ret ty = option_map Emit.type_tokens (sf_ret sf).
+Proof. exact EmitFnFinal.emitted_impl_function_whole_build. Qed.
+Print Assumptions C05_emitted_impl_function.
+
+Theorem C05_emitted_wrappers :
+  forall (order : schedule) (ptr : N) (mods : list (path * gmodule)) (st0 st : sstate)
+      (files : list (string * Sexp.sexp)) (p : path) (it0 : item) (gd : gitemdef) 
+      (td0 : gtypedef) (parent : path) (module0 : smodule) (blk : gfnblock),
+    input_state ptr mods = Ok st0 ->
+    NoDup (map fst mods) ->
+    collision_free (st_reg st0) ->
+    EmitFinal.keeps_work order ->
+    pyxis_resolve order ptr mods = BOk st ->
+    Emit.write_all st = Ok files ->
+    reg_get (st_reg st0) p = Some it0 ->
+    it_state it0 = Unresolved gd ->
+    gi_inner gd = GIType td0 ->
+    path_parent p = Some parent ->
+    parent <> [] ->
+    alookup parent (st_modules st0) = Some module0 ->
+    alookup p (m_impls module0) = Some blk ->
+    exists
+      (name : string) (it : item) (r : resolved) (td : type_def) (R_mid : registry) 
+    (inherited own : list sfunction) (f : Sexp.sexp) (pre : list Sexp.sexp) 
+    (s : Sexp.sexp) (checks sing : list Sexp.sexp) (im : Sexp.sexp) (conv post fns : list Sexp.sexp),
+      path_last p = Some name /\
+      reg_get (st_reg st) p = Some it /\
+      it_state it = Resolved r /\
+      rs_inner r = IType td /\
+      ext (st_reg st0) R_mid (st_reg st) /\
+      td_assoc td = inherited ++ own /\
+      Forall2
+        (fun (gf : gfunction) (sf : sfunction) =>
+         function_build R_mid (module_scope module0) false gf = Ok sf) (gb_fns blk) own /\
+      In (Emit.out_path parent, f) files /\
+      EmitReaders.file_items f = Some (pre ++ (s :: checks ++ sing ++ im :: conv) ++ post) /\
+      EmitReaders.find_struct name (pre ++ (s :: checks ++ sing ++ im :: conv) ++ post) = Some s /\
+      EmitShape.struct_shape name (rs_align r) (it_vis it0) td s /\
+      EmitShape.size_check_shape name (rs_size r) checks /\
+      match td_singleton td with
+      | Some a => exists g : Sexp.sexp, sing = [g] /\ EmitFnShape.singleton_shape name (it_vis it0) a g
+      | None => sing = []
+      end /\
+      EmitReaders.item_kind im = Some "impl"%string /\
+      EmitFnReaders.inherent_impl im = Some (name, fns) /\
+      Forall2
+        (fun (_ : gfunction) (sf : sfunction) =>
+         sf_is_internal sf = false -> exists e : Sexp.sexp, In e fns /\ EmitFnShape.wrapper_shape sf e)
+        (gb_fns blk) own.
+Proof. exact EmitFnFinal.emitted_wrappers_whole_build. Qed.
+Print Assumptions C05_emitted_wrappers.
